@@ -200,6 +200,11 @@ func idClass(id uint32) string {
 func checkDown(r *ev.Run, w *world, shape string) {
 	req := uint32(0x4100)
 	for ti := 1; ti < len(w.nodes); ti++ {
+		if w.nodes[ti].parent < 0 {
+			continue // a second direct agent (link-history worlds)
+		}
+		path := w.path(ti)
+		root := path[len(path)-1]
 		for _, v := range variants() {
 			req++
 			target := w.nodes[ti].id
@@ -208,7 +213,7 @@ func checkDown(r *ev.Run, w *world, shape string) {
 				r.Violate("down/panic/"+ev.Normalize(fmt.Sprint(p)), fmt.Sprintf("queueing %q for %08x panicked: %v", v.name, target, p), detail)
 				continue
 			}
-			res, tasks, err := w.ts.CheckIn(w.nodes[0].id, w.nodes[0].k)
+			res, tasks, err := w.ts.CheckIn(w.nodes[root].id, w.nodes[root].k)
 			r.Eval(1)
 			if res.Panic != nil || err != nil {
 				r.Violate("down/checkin-failed", fmt.Sprintf("first hop's check-in failed: panic=%v err=%v", res.Panic, err), detail)
@@ -429,6 +434,49 @@ func assignments(n int) [][]uint32 {
 	return out
 }
 
+// runLinkHistory: the route follows the link history.  A and B are direct agents; A links
+// C, C links D, then B links C again (C moves below B), then A - the former parent, which
+// sleeps longer - reports the disconnect of C late.  After every step every task variant
+// for C and for D must arrive at the first hop of the route in force, wrapped for that route.
+func runLinkHistory(r *ev.Run) {
+	for _, ids := range [][]uint32{{0xa1, 0xb2, 0xc3, 0xd4}, {0x80000001, 0x7fffffff, 0xdeadbeef, 0xffffffff}} {
+		w, err := build(ids, []int{-1, -1, 0, 2})
+		if err != nil {
+			r.Violate("history/build", err.Error(), map[string]any{"ids": fmt.Sprintf("%08x", ids)})
+			w.ts.Close()
+			continue
+		}
+		checkDown(r, w, "history: A<-C<-D, B")
+		// B reports an SMB connect naming the existing agent C
+		k, iv := w.key(2)
+		inner := demonwire.Register(ids[2], k, iv, demonwire.DefaultMeta(ids[2]))
+		b := &demonwire.W{}
+		b.I32(agent.DEMON_PIVOT_SMB_CONNECT).I32(1).Bytes(inner)
+		if res := w.send(1, demonwire.Sub{Cmd: agent.COMMAND_PIVOT, Body: b.B}); res.Panic != nil {
+			r.Violate("history/panic/reconnect", fmt.Sprint(res.Panic), nil)
+		}
+		if c := w.ts.Agent(ids[2]); c == nil || c.Pivots.Parent == nil || c.Pivots.Parent.NameID != fmt.Sprintf("%08x", ids[1]) {
+			r.Violate("history/reconnect-not-applied", "B's connect naming C did not move C below B", map[string]any{"ids": fmt.Sprintf("%08x", ids)})
+			w.ts.Close()
+			continue
+		}
+		w.nodes[2].parent = 1
+		w.ts.CheckIn(ids[0], w.nodes[0].k)
+		w.ts.CheckIn(ids[1], w.nodes[1].k)
+		checkDown(r, w, "history: after C moved below B")
+		// A's late disconnect report for C, which is no longer its child
+		d := &demonwire.W{}
+		d.I32(agent.DEMON_PIVOT_SMB_DISCONNECT).I32(1).I32(ids[2])
+		if res := w.send(0, demonwire.Sub{Cmd: agent.COMMAND_PIVOT, Body: d.B}); res.Panic != nil {
+			r.Violate("history/panic/stale-disconnect", fmt.Sprint(res.Panic), nil)
+		}
+		w.ts.CheckIn(ids[0], w.nodes[0].k)
+		w.ts.CheckIn(ids[1], w.nodes[1].k)
+		checkDown(r, w, "history: after the former parent's late disconnect report")
+		w.ts.Close()
+	}
+}
+
 func Run(r *ev.Run) {
 	r.Rule = "pivot chains of depth 1..5 and one 2x2 tree; agent ids from {1,7fffffff,80000000,deadbeef,ffffffff,100} in every ordered assignment without repetition for <=4 agents (covering rotations beyond); distinct key/IV per agent; every chain is built through the real listener and real SMB-connect callbacks; for every non-root target x 6 task variants the first hop's check-in response is unwrapped hop by hop by the reference pipe framing; for every non-root agent 4 relayed-callback cases (outstanding at child / parent only / nowhere; child's / parent's key). distinct = outcome classes"
 	r.Assume("the Demon's SMB framing is the demonwire transcription of TransportSmb.c / Command.c", "6 representative agent ids stand for all 32-bit ids (both sides of 0x80000000, the magic value, all-ones)")
@@ -448,6 +496,9 @@ func Run(r *ev.Run) {
 		}
 	}
 	r.Bounds["chains"] = len(jobs)
+	if _, _, worker := par.Shard(); !worker {
+		runLinkHistory(r)
+	}
 	par.RunStrict(r, par.Workers(), 8*time.Minute, func(i, n int, r *ev.Run) {
 		for ji, j := range jobs {
 			if ji%n != i {
